@@ -154,3 +154,16 @@ for _kind, _req, _ens in (("int", ["idx >= 0"], ["result == (old(idx), old(idx) 
         params={"y": "matrix", "idx": _kind}, requires=_req,
         # the columns selected from the state record are exactly the positions of the variable: [i, i+1) resp. [a, b)
         ensures=_ens, modifies=[]))
+
+
+# The frontend decides with this function whether the model is compiled for a FIXED-step loop (integer step counter as `t`, input
+# samples indexed by it, ring buffers, hist(t*dt - d)) or for an adaptive solver (continuous `t`, interpolated inputs, hist(t - d)).
+# The fixed-step loops of every backend are exactly the ones `_solve` dispatches 'euler' and 'heun' to (C20 dispatch contract), so
+# the two decisions have to agree: adaptive  <=>  solver is neither 'euler' nor 'heun'.
+CONTRACTS.append(dict(
+    name="is_integration_adaptive", prop="C03", target="pyrates/frontend/template/circuit.py::is_integration_adaptive",
+    params={"solver": "str", "solver_kwargs": "opaque"},
+    ensures=["result == (solver != 'euler' and solver != 'heun')"],
+    modifies=[], returns_any=True,
+))
+
